@@ -16,7 +16,7 @@ func (t *WeightedMerkleTrie) GetPath(keys [][]byte) ([]byte, error) {
 	persistTrie := &PersistTrie{}
 
 	if t.root != nil {
-		if node, ok := t.root.(*hashNode); ok {
+		if node, ok := t.root.(*hashNode); ok && t.db != nil {
 			data, err := t.db.Get(node.Hash())
 			if err != nil {
 				return nil, err
